@@ -9,6 +9,7 @@ import (
 	"os/exec"
 	"path/filepath"
 	"strings"
+	"time"
 
 	"verifh/lib"
 	"verifh/luagen"
@@ -43,6 +44,15 @@ type Config struct {
 	// Extra runs property-specific Go-side checks (e.g. tail-call depth); failures via w.GoFail.
 	Extra func(w *lib.Writer, tier string, seed uint64)
 	RunOptions *luagen.RunOptions
+	// Isolate runs every program in a child process (needed where the interpreter can crash or hang).
+	Isolate bool
+}
+
+func run(cfg *Config, src string) *luagen.Outcome {
+	if cfg.Isolate {
+		return luagen.RunIsolated(src, 20*time.Second)
+	}
+	return luagen.Run(src, cfg.RunOptions)
 }
 
 var uses = map[string]int{}
@@ -65,7 +75,7 @@ func gen(cfg *Config, seed uint64, idx int) ([]luagen.Stmt, Mode, *luagen.Gen) {
 func runOne(cfg *Config, w *lib.Writer, seed uint64, idx int) {
 	prog, m, g := gen(cfg, seed, idx)
 	src := luagen.PrintLua(prog)
-	out := luagen.Run(src, cfg.RunOptions)
+	out := run(cfg, src)
 	for k, v := range g.Uses {
 		uses[k] += v
 	}
@@ -99,7 +109,7 @@ func runCorpus(cfg *Config, w *lib.Writer) {
 			panic(fmt.Sprintf("corpus entry %d does not parse: %v", i, err))
 		}
 		text := luagen.PrintLua(prog)
-		out := luagen.Run(text, cfg.RunOptions)
+		out := run(cfg, text)
 		c := lib.Case{Input: Input{Src: text, Mode: "corpus", Idx: i}, Observed: out.Summary(), Class: "corpus",
 			Nontrivial: true, Coq: fmt.Sprintf("CProg %s %s", luagen.CoqBlock(prog), out.Coq())}
 		if out.GoFail != "" {
@@ -121,7 +131,7 @@ func shrinkCmd(cfg *Config, seed uint64, idx int) {
 	defer os.RemoveAll(dir)
 	fails := func(p []luagen.Stmt) bool {
 		src := luagen.PrintLua(p)
-		out := luagen.Run(src, cfg.RunOptions)
+		out := run(cfg, src)
 		if out.GoFail != "" {
 			return false
 		}
@@ -143,12 +153,16 @@ func shrinkCmd(cfg *Config, seed uint64, idx int) {
 	small := luagen.Shrink(prog, fails, 400)
 	src := luagen.PrintLua(small)
 	fmt.Println(src)
-	out := luagen.Run(src, cfg.RunOptions)
+	out := run(cfg, src)
 	b, _ := json.Marshal(out.Summary())
 	fmt.Println("OBSERVED:", string(b))
 }
 
 func Main(cfg *Config) {
+	if len(os.Args) > 1 && os.Args[1] == "child" {
+		luagen.ChildMain(cfg.RunOptions)
+		return
+	}
 	if len(os.Args) > 3 && os.Args[1] == "shrink" {
 		var seed uint64
 		var idx int
